@@ -3,8 +3,10 @@
      corr_ok : the interpretation of the GENERATED guard list on the call's
                shape agrees with what the implementation did (error variant and
                fields, early Ok, the caller's array afterwards);
-     prop_ok : the property clause itself, judged on the implementation's
-               result alone by [check_C20_err] (independent of the guard lists).
+     prop_ok : the property itself, judged from the input shape and the
+               implementation's result alone by [check_C20] (independent of the
+               guard lists): when a clause applies, anything but a promised
+               error with the array untouched is a rejection.
    Depends on the model and the generated lists only (not on the proofs). *)
 From Coupe Require Import Lib.Prelude Lib.Report Model.Errors Gen.GuardsGen.
 
@@ -47,14 +49,15 @@ Definition eval20 (c : case20) : verdict :=
     end in
   (* VnBest / VnFirst on an array holding usize::MAX: outside the usage contract *)
   let outside := ((alg =? 5) || (alg =? 6))%N && existsb (N.eqb usize_max) p0 in
-  let prop :=
-    if outside then true
-    else if violation alg sh p0 then
-      match c_impl c with
-      | IErr code a b => check_C20_err alg sh p0 code a b (c_after c)
-      | _ => false
-      end
-    else true in
+  let obs := match c_impl c with
+             | IOk _ => ObsOk
+             | IErr code a b => ObsErr code a b
+             | IPanic => ObsPanic
+             | IHang => ObsHang
+             end in
+  (* the property, from the input shape and the observation alone (Model/Errors.v [check_C20],
+     proved equivalent to [C20_holds]); the generated guard list plays no part in it *)
+  let prop := if outside then true else check_C20 alg sh p0 obs (c_after c) in
   let cls :=
     match o, c_impl c with
     | OErr (InputLenMismatch _ _), _ => 0
